@@ -17,6 +17,7 @@ The round trip through libsbml itself is not decided.
 import ast
 
 from .. import util
+from ..templates import UNKNOWN, assigned_names
 from ..front import AnalysisError, src
 from . import c13, c14
 
@@ -83,6 +84,7 @@ def required_prop_keys(ctx):
 
 
 def check_keys(ctx):
+    FUNCS[0] = _module_funcs(ctx)
     fw = c14.get_func(ctx, 'add_reaction')
     wk = writer_prop_keys(fw)
     req, _ = required_prop_keys(ctx)
@@ -101,91 +103,251 @@ def check_keys(ctx):
         ctx.ob('R12.1-propensity-keys', ptype, not missing and 'k' in emitted, ctx.loc('sbmlutil', fw),
                "every key the '%s' propensity needs (%s) is written into <PropensityType> or rebuilt from the reactants" % (ptype, sorted(keys)),
                'missing from the annotation: %s (writer emits %s)' % (sorted(missing), sorted(emitted)) if missing else '')
-    # the values written for species keys are the exported ids, for parameters the model's names
-    txt = [k(util.stmt_key(s)) for s in ast.walk(fw) if isinstance(s, ast.stmt)]
-    ok = txt.count('propensity_annotation_dict["s1"]=s_species_id'.replace('"', "'")) == 4 and txt.count("propensity_annotation_dict['d']=d_species_id") == 2 \
-        and "propensity_annotation_dict={'type':propensity_type}" in txt
-    ctx.ob('R12.1-propensity-keys', 'values', ok, ctx.loc('sbmlutil', fw), "the annotation carries the type string and, for species keys, the exported species id", '')
-    # reader side: generic key=value parse, type taken from the annotation
+    # ---- writer and reader evaluated on sample reactions (templates.StrExec): what the writer's code puts into the annotation
+    # string for a sample reaction is handed to the reader's code, which must give the sample back
     fr = c13.func(ctx, 'import_sbml_reactions')
-    rt = [k(util.stmt_key(s)) for s in ast.walk(fr) if isinstance(s, ast.stmt)]
-    ok = 'annotation_list=annotation_string[ind0:ind1].split(\' \')' in rt and \
-        "key_vals=[(i.split('=')[0],i.split('=')[1])foriinannotation_listif'='ini]" in rt and 'propensity_params[k]=v' in rt
-    # every key=value pair of the propensity annotation is kept, on every path of the reader loop
-    from .. import paths as _paths
-    ploops = [n for n in ast.walk(fr) if isinstance(n, ast.For) and k(src(n.iter)) == 'key_vals'
-              and any(isinstance(x, ast.Assign) and k(src(x.targets[0])) == 'propensity_params[k]' for x in ast.walk(n))]
-    kept = len(ploops) == 1
-    if kept:
-        for p_ in _paths.Enumerator().run(ploops[0].body, _paths.State()):
-            if p_.exit == 'fall' and not any(isinstance(e.node, ast.Assign) and k(src(e.node.targets[0])) == 'propensity_params[k]' for e in p_.stmts()):
-                kept = False
-    ok = ok and kept
-    got_p, got_d, num_problem = written_annotations(fw)
-    sep_w = got_p == {'type': 'T', 'k': 'Pk', 's1': 'Ps1'}
-    ctx.ob('R12.1-separators', 'propensity', ok and sep_w, ctx.loc('sbmlutil', fr),
-           "writer and reader agree on ' ' between pairs and '=' inside a pair (the writer's string for a sample dictionary, split the reader's way, gives the dictionary back)",
-           '' if sep_w else 'the reader would recover %r' % (got_p,))
+    bad_values, bad_rt = [], []
+    for ptype in sorted(req):
+        if ptype == 'general':
+            continue
+        for numeric in (False, True):
+            vals = {key: num for key, num in (('k', 2.5), ('K', 40), ('n', 2)) if key in req[ptype]} if numeric else None
+            ann, wd = eval_writer(fw, ptype, None, vals)
+            if isinstance(ann, Raises):
+                bad_rt.append('%s%s: %r' % (ptype, ' with numbers' if numeric else '', ann))
+                continue
+            if not isinstance(wd, dict) or not isinstance(ann, str):
+                raise AnalysisError('add_reaction: the annotation written for a %s reaction could not be evaluated' % ptype)
+            if not numeric:
+                want = {'type': ptype}
+                want.update({key: 'P_' + key for key in wd if key != 'type'})
+                if dict(wd) != want:
+                    bad_values.append('%s: %r' % (ptype, wd))
+            rx = eval_reader(fr, ann)
+            if isinstance(rx, Raises):
+                bad_rt.append('%s%s: written %r; reading it, %r' % (ptype, ' with numbers' if numeric else '', wd, rx))
+                continue
+            if rx is None or len(rx) != 8 or any(v is UNKNOWN for v in (rx[2], rx[3])) or (isinstance(rx[3], dict) and any(v is UNKNOWN for v in rx[3].values())):
+                raise AnalysisError('import_sbml_reactions: what is read from the annotation of a %s reaction could not be evaluated (%r)' % (ptype, rx))
+            if not (rx[2] == ptype and same_values(rx[3], wd)):
+                bad_rt.append('%s%s: written %r, read %r (type %r)' % (ptype, ' with numbers' if numeric else '', wd, rx[3], rx[2]))
+    ctx.ob('R12.1-propensity-keys', 'values', not bad_values, ctx.loc('sbmlutil', fw),
+           "the annotation carries the type string and, under each key, that key's own species id / parameter", '; '.join(bad_values))
+    ctx.ob('R12.1-separators', 'propensity', not bad_rt, ctx.loc('sbmlutil', fr),
+           "the reader's code, evaluated on the string the writer's code builds for a sample reaction of each type (names and numbers), gives the "
+           "written dictionary and type back", '; '.join(bad_rt))
     # delay
-    fcr_txt = [k(util.stmt_key(s)) for s in ast.walk(fcr) if isinstance(s, ast.stmt)]
     dreq = set()
     for c in util.calls_in(fcr, suffix='_param_dict_check'):
         if src(c.args[0]) == 'delay_param_dict' and isinstance(c.args[1], ast.Constant):
             dreq.add(c.args[1].value)
-    handled = set()
-    # the reader's own body and the module-level helpers it hands the key=value pairs to
-    smod = ctx.prog.mod('sbmlutil')
-    consts = {st.targets[0].id: st.value for st in smod.tree.body if isinstance(st, ast.Assign) and len(st.targets) == 1
-              and isinstance(st.targets[0], ast.Name) and isinstance(st.value, (ast.Tuple, ast.List, ast.Set))}
-    scopes = [fr]
-    for c_ in ast.walk(fr):
-        if isinstance(c_, ast.Call) and isinstance(c_.func, ast.Name) and any(src(a_) == 'key_vals' for a_ in c_.args):
-            scopes += [g_ for g_ in smod.tree.body if isinstance(g_, ast.FunctionDef) and g_.name == c_.func.id]
-    for n in [x for sc in scopes for x in ast.walk(sc)]:
-        if not isinstance(n, ast.If):
+    if not dreq:
+        raise AnalysisError('create_reaction: the delay parameter keys were not found')
+    from ..templates import Hole
+    got = {}
+    detail = []
+    for numeric, ptype in ((False, 'massaction'), (True, 'massaction'), (False, 'general')):
+        # (a delayed reaction with a general rate has a delay annotation and no propensity annotation)
+        sample = {'type': Hole('DT'), 'reactants': [Hole('R1'), Hole('R1'), Hole('R2')], 'products': [Hole('P1')],
+                  'parameters': {key: (1.5 + i if numeric else Hole('D_' + key)) for i, key in enumerate(sorted(dreq))}}
+        ann, _ = eval_writer(fw, ptype, sample, None)
+        if isinstance(ann, Raises):
+            detail.append(repr(ann))
+            got = {key: False for key in dreq | {'type', 'reactants', 'products'}}
             continue
-        keys = util.eq_literals(n.test, 'k')
-        if not keys and isinstance(n.test, ast.Compare) and len(n.test.ops) == 1 and isinstance(n.test.ops[0], ast.In) and src(n.test.left) == 'k':
-            coll = n.test.comparators[0]
-            coll = consts.get(coll.id) if isinstance(coll, ast.Name) else coll
-            if isinstance(coll, (ast.Tuple, ast.List, ast.Set)) and all(isinstance(e_, ast.Constant) for e_ in coll.elts):
-                if any(isinstance(x, ast.Assign) and k(src(x.targets[0])) == 'delay_params[k]' for x in n.body):
-                    handled |= {e_.value for e_ in coll.elts}
-        if not keys:
+        if not isinstance(ann, str):
+            raise AnalysisError('add_reaction: the delay annotation written for a sample reaction could not be evaluated')
+        rx = eval_reader(fr, ann)
+        if isinstance(rx, Raises):
+            detail.append('written %r; reading it, %r' % (sample, rx))
+            got = {key: False for key in dreq | {'type', 'reactants', 'products'}}
             continue
-        body = [k(util.stmt_key(x)) for x in n.body]
-        for key in keys:
-            if body in (['delay_params[k]=v'], ["delay_params['%s']=v" % key]):
-                handled.add(key)
-            if key == 'type' and body == ['delay_type=v']:
-                handled.add('type')
-            if key in ('reactants', 'products') and body == ["delay_%s=v.split(',')" % key]:
-                handled.add(key)
+        if isinstance(rx, list) and len(rx) != 8:
+            detail.append('%s reaction with a delay annotation: the reader returns %d fields, none of them the delay (%r)' % (ptype, len(rx), rx))
+            got = {key: False for key in dreq | {'type', 'reactants', 'products'}}
+            continue
+        if rx is None:
+            raise AnalysisError('import_sbml_reactions: the reaction tuple could not be evaluated')
+        if any(v is UNKNOWN for v in rx[4:7]) or (isinstance(rx[7], dict) and any(v is UNKNOWN for v in rx[7].values())):
+            raise AnalysisError('import_sbml_reactions: what is read from a delay annotation could not be evaluated (%r)' % (rx[4:],))
+        ok_here = {'type': rx[4] == 'DT', 'reactants': rx[5] == ['R1', 'R1', 'R2'], 'products': rx[6] == ['P1']}
+        for key in dreq:
+            ok_here[key] = isinstance(rx[7], dict) and key in rx[7] and same_value(rx[7][key], sample['parameters'][key])
+        extra = isinstance(rx[7], dict) and set(rx[7]) - dreq
+        for key, v in ok_here.items():
+            got[key] = got.get(key, True) and v
+        if extra or not all(ok_here.values()):
+            detail.append('%s reaction: written %r, read type=%r reactants=%r products=%r parameters=%r' % (ptype, sample, rx[4], rx[5], rx[6], rx[7]))
+        got['__extra__'] = got.get('__extra__', True) and not extra
     for key in sorted(dreq | {'type', 'reactants', 'products'}):
-        ctx.ob('R12.1-delay-keys', key, key in handled, ctx.loc('sbmlutil', fr),
-               "the delay annotation key '%s' written for a model is read back into the same field" % key, 'reader handles %s' % sorted(handled))
-    want_d = {'type': 'DT', 'reactants': 'R1,R1,R2', 'products': 'P1', 'delay': 'Dd', 'sigma': 'Ds'}
-    ctx.ob('R12.1-separators', 'delay', got_d == want_d, ctx.loc('sbmlutil', fw),
-           "delay annotation: ' ' between pairs, '=' inside, ',' inside lists, every list entry kept with its multiplicity, parameters flattened",
-           '' if got_d == want_d else 'for reactants [R1, R1, R2], products [P1], parameters {delay, sigma} the reader would recover %r' % (got_d,))
+        ctx.ob('R12.1-delay-keys', key, got.get(key, False), ctx.loc('sbmlutil', fr),
+               "the delay annotation key '%s' written for a model is read back into the same field" % key, '; '.join(detail))
+    ctx.ob('R12.1-separators', 'delay', all(got.values()), ctx.loc('sbmlutil', fw),
+           "delay annotation: the reader's code, evaluated on the string the writer's code builds for reactants [R1, R1, R2], products [P1] and every "
+           "delay parameter, gives them back (multiplicities kept, nothing else added)", '; '.join(detail))
     # rule frequency
     far = c13.func(ctx, 'add_rule')
-    freq = far.args.args[5].arg
-    js = [n for n in ast.walk(far) if isinstance(n, ast.Assign) and src(n.targets[0]) == 'rule_annotation_string']
-    ok = len(js) == 1 and 'rule_frequency=' in src(js[0].value) and '<BioscrapeRule>' in src(js[0].value)
     frr = c13.func(ctx, 'import_sbml_rules')
-    rr = [k(util.stmt_key(s)) for s in ast.walk(frr) if isinstance(s, ast.stmt)]
-    # the value read for the key must reach rule_frequency unconditionally (any value the writer can emit - keyword or number - is kept)
-    key_ifs = [n for n in ast.walk(frr) if isinstance(n, ast.If) and k(src(n.test)) == "k=='rule_frequency'"]
-    ok2 = len(key_ifs) == 1 and any(k(util.stmt_key(x)) == 'rule_frequency=v' for x in key_ifs[0].body) and not key_ifs[0].orelse
-    ctx.ob('R12.1-rule-frequency', 'key', ok and ok2, ctx.loc('sbmlutil', far),
-           "the rule frequency is written and read under the key 'rule_frequency', and whatever value was written is taken over unconditionally", '')
-    # and it is that variable that goes into the rule tuple
-    ok3 = 'rule_tuple=(rule_type,rule_dict,rule_frequency)' in rr and 'allrules.append(rule_tuple)' in rr
-    defaults = [x for x in rr if x.startswith('rule_frequency=') and x != 'rule_frequency=v']
-    ctx.ob('R12.1-rule-frequency', 'forwarded', ok3 and set(defaults) <= {"rule_frequency='repeated'"}, ctx.loc('sbmlutil', frr),
-           "the frequency read from the annotation (default 'repeated' without annotation) is what the imported rule gets", str(defaults))
+    bad = []
+    for freq in (Hole('FREQ'), 5):
+        ann = eval_rule_writer(far, freq)
+        if isinstance(ann, Raises):
+            bad.append('writing frequency %r, %r' % (freq, ann))
+            continue
+        if not isinstance(ann, str):
+            raise AnalysisError('add_rule: the annotation written for a sample rule could not be evaluated')
+        tup = eval_rule_reader(frr, ann)
+        if isinstance(tup, Raises):
+            bad.append('reading frequency %r, %r' % (freq, tup))
+            continue
+        if tup is None or len(tup) != 3 or tup[2] is UNKNOWN:
+            raise AnalysisError('import_sbml_rules: the rule tuple read for a sample rule could not be evaluated (%r)' % (tup,))
+        if not same_value(tup[2], freq):
+            bad.append('written %r, read %r' % (freq, tup[2]))
+    ctx.ob('R12.1-rule-frequency', 'key', not bad, ctx.loc('sbmlutil', far),
+           "the rule frequency the writer's code puts into the annotation is what the reader's code puts into the rule tuple", '; '.join(bad))
+    tup = eval_rule_reader(frr, '')
+    ctx.ob('R12.1-rule-frequency', 'forwarded', isinstance(tup, list) and len(tup) == 3 and tup[2] == 'repeated', ctx.loc('sbmlutil', frr),
+           "a rule without annotation is imported as a repeated rule", repr(tup))
     return fw, far
+
+
+def same_value(read, written):
+    """the reader's value stands for the written one: equal, or equal as text / as number"""
+    if read == written and not isinstance(read, (list, dict)):
+        return True
+    if isinstance(read, str) and not isinstance(written, str) and read == str(written):
+        return True
+    if isinstance(read, (int, float)) and isinstance(written, (int, float)):
+        return float(read) == float(written)
+    return False
+
+
+def same_values(read, written):
+    return isinstance(read, dict) and isinstance(written, dict) and set(read) == set(written) and all(same_value(read[key], written[key]) for key in written)
+
+
+def eval_writer(fw, ptype, delay, values):
+    tracked = ('annotation_string', 'propensity_annotation_string', 'delay_annotation_string') + (() if values else ('ratestring',))
+    try:
+        _, ex = c14.build(fw, ptype, False, [1], delay=delay, values=values, tracked=tracked)
+    except AnalysisError as e:
+        if 'add_reaction raises' in str(e) and 'TypeError' in str(e):
+            return Raises(str(e)), None
+        raise
+    return ex.annotation, ex.env.get('propensity_annotation_dict')
+
+
+def _module_funcs(ctx):
+    smod = ctx.prog.mod('sbmlutil')
+    return {g.name: g for g in smod.tree.body if isinstance(g, ast.FunctionDef)}, smod
+
+
+def _reader_exec(ctx_funcs, hook, env, frozen):
+    from ..templates import StrExec
+    funcs, smod = ctx_funcs
+    ex = StrExec(env, tracked=set(), frozen=frozen, functions=funcs, call_hook=hook)
+    # module-level constant tables (key tuples ...) are visible to the reader and to the helpers it calls
+    for st in smod.tree.body:
+        if isinstance(st, ast.Assign) and len(st.targets) == 1 and isinstance(st.targets[0], ast.Name) and st.targets[0].id not in ex.env:
+            v = ex.ev(st.value)
+            if v is not UNKNOWN and not (isinstance(v, list) and any(x is UNKNOWN for x in v)):
+                ex.env[st.targets[0].id] = v
+                ex.module_names.add(st.targets[0].id)
+    return ex
+
+
+FUNCS = [None]
+
+
+class Raises:
+    """the evaluated function does not return on the sample: it raises"""
+
+    def __init__(self, what):
+        self.what = what
+
+    def __repr__(self):
+        return 'the code ' + self.what
+
+
+def eval_reader(fr, annotation):
+    """import_sbml_reactions evaluated on a document with one reaction (no species references, no local parameters) whose annotation
+    is the given string -> the reaction tuple it returns"""
+    from ..templates import Hole
+    text = '<annotation>\n  ' + annotation + '\n</annotation>' if annotation else ''
+
+    def hook(n, ex):
+        if isinstance(n.func, ast.Attribute) and not n.args:
+            a = n.func.attr
+            if a == 'getListOfReactions':
+                return [Hole('REACTION')]
+            if a == 'getAnnotationString':
+                return text
+            if a.startswith('getListOf'):
+                return []
+        return None
+    params = [x.arg for x in fr.args.args]
+    env = {nm: False for nm in params[3:]}
+    ex = _reader_exec(FUNCS[0], hook, env, set(env))
+    ex.local_names = assigned_names(fr.body) - set(params)
+    ex.run(fr.body)
+    r = ex.returned
+    if ex.aborted:
+        return Raises(ex.aborted)
+    if not isinstance(r, list) or not r or not isinstance(r[0], list) or len(r[0]) != 1 or not isinstance(r[0][0], list):
+        return None
+    return r[0][0]
+
+
+def eval_rule_writer(far, freq):
+    from ..templates import StrExec
+    params = [x.arg for x in far.args.args]
+    cap = []
+
+    def hook(n, ex):
+        if isinstance(n.func, ast.Attribute) and n.func.attr == 'setAnnotation' and len(n.args) == 1:
+            cap.append(ex.ev(n.args[0]))
+        return None
+    env = {params[5]: freq}
+    ex = StrExec(env, tracked=set(), frozen={params[5]}, call_hook=hook, functions=FUNCS[0][0])
+    ex.run(far.body)
+    if ex.aborted:
+        return Raises(ex.aborted)
+    return cap[-1] if len(cap) == 1 else None
+
+
+def eval_rule_reader(frr, annotation):
+    """import_sbml_rules evaluated on a document with one assignment rule for a species -> the rule tuple"""
+    from ..templates import Hole
+    text = '<annotation>\n  ' + annotation + '\n</annotation>' if annotation else ''
+
+    def hook(n, ex):
+        if isinstance(n.func, ast.Attribute) and not n.args:
+            a = n.func.attr
+            if a == 'getListOfRules':
+                return [Hole('RULE')]
+            if a == 'getAnnotationString':
+                return text
+            if a == 'getVariable':
+                return Hole('X')
+            if a == 'getElementName':
+                return 'assignmentRule'
+            if a.startswith('getListOf'):
+                return []
+        if src(n.func).endswith('formulaToL3String') or src(n.func).endswith('formulaToString'):
+            return Hole('FORMULA')
+        return None
+    params = [x.arg for x in frr.args.args]
+    env = {params[1]: {'X': 1.0}, params[2]: {}, params[3]: [], params[4]: False}
+    ex = _reader_exec(FUNCS[0], hook, env, {params[4]})
+    ex.local_names = assigned_names(frr.body) - set(params)
+    ex.run(frr.body)
+    r = ex.returned
+    if ex.aborted:
+        return Raises(ex.aborted)
+    if not isinstance(r, list) or not r or not isinstance(r[0], list) or len(r[0]) != 1 or not isinstance(r[0][0], list):
+        return None
+    return r[0][0]
 
 
 def concat_operands(n):
@@ -220,6 +382,8 @@ def written_annotations(fw):
                                          'parameters': {'delay': val('Dd', 3), 'sigma': val('Ds', 0.5)}}}
         ex = StrExec(env, ('propensity_annotation_string', 'delay_annotation_string'))
         ex.run(blocks)
+        if ex.aborted:
+            raise AnalysisError('the annotation code %s' % ex.aborted)
         return ex.env.get('propensity_annotation_string'), ex.env.get('delay_annotation_string')
 
     def pairs(text, tag):
